@@ -6,6 +6,11 @@ Model of `ringz/ring.go` (`Ring[T]`), mirroring the Go code statement by stateme
 * `values` is the backing array (`make([]T, cap)`); element type is `Int`, zero value `0`.
 * A Go panic (index out of range, slice bounds) is `none`.
 * `New/Init` with `cap ≤ 0` panics in Go: `init? = none`.
+* Go `%` panics on a zero divisor ("integer divide by zero") whereas `Int.tmod x 0 = x`:
+  every evaluation of `IsFull` (`(r.tail+1)%r.cap`) is guarded by `r.cap = 0 → none`.  This
+  is only reachable on the zero value `var r Ring[T]` (never `Init`ialised; `Ring.zero`),
+  whose `head = tail = 0` makes it look non-empty: the case header `ring zero` ties the
+  model to that behaviour, `c10_ring_zero_value` states it.  The `%` in `Pop` is guarded likewise.
 -/
 import Golib.Proto
 
@@ -41,11 +46,18 @@ def Ring.init? (cap : Int) : Option Ring :=
   if cap ≤ 0 then none
   else some { values := List.replicate cap.toNat 0, head := -1, tail := -1, cap := cap }
 
+/-- `var r Ring[T]` without `Init`: nil slice, all fields zero. -/
+def Ring.zero : Ring := { values := [], head := 0, tail := 0, cap := 0 }
+
 def Ring.isEmpty (r : Ring) : Bool := r.head == -1
 
 def Ring.isFull (r : Ring) : Bool := Int.tmod (r.tail + 1) r.cap == r.head
 
+/-- `IsFull()` as Go evaluates it: `x % 0` is a run-time panic. -/
+def Ring.isFull? (r : Ring) : Option Bool := if r.cap = 0 then none else some r.isFull
+
 def Ring.push (r : Ring) (v : Int) : Option (Ring × Bool) :=
+  if r.cap = 0 then none else                       -- `r.IsFull()` divides by `r.cap`
   if r.isFull then some (r, false) else
   let r1 := if r.isEmpty then { r with head := 0 } else r
   let t := Int.tmod (r1.tail + 1) r1.cap
@@ -63,6 +75,7 @@ def Ring.pop (r : Ring) : Option (Ring × Int × Bool) :=
     | some vs =>
       if r.head == r.tail then
         some ({ r with values := vs, head := -1, tail := -1 }, value, true)
+      else if r.cap = 0 then none                   -- `% r.cap`
       else
         some ({ r with values := vs, head := Int.tmod (r.head + 1) r.cap }, value, true)
 
@@ -102,6 +115,7 @@ def Ring.recap (r : Ring) (cap : Int) : Option (Ring × Bool) :=
     | some nv => some ({ values := nv, cap := cap, head := 0, tail := l - 1 }, true)
 
 def Ring.pushWithExpand (r : Ring) (v : Int) : Option Ring :=
+  if r.cap = 0 then none else                       -- `r.IsFull()` divides by `r.cap`
   let r1? : Option Ring :=
     if r.isFull then (r.recap (r.cap * 2)).map (·.1) else some r
   match r1? with
@@ -140,7 +154,7 @@ def Ring.step (r : Ring) : Op → Option (Ring × String)
   | .len => some (r, toString r.len)
   | .cap => some (r, toString r.cap)
   | .isEmpty => some (r, showBool r.isEmpty)
-  | .isFull => some (r, showBool r.isFull)
+  | .isFull => r.isFull?.map fun b => (r, showBool b)
 
 /-- After a panic the Go harness stops the case; the driver answers `dead`. -/
 def runOps : Option Ring → List String → List String
@@ -156,6 +170,7 @@ def runOps : Option Ring → List String → List String
 
 def runRingCase (hdr : List String) (ops : List String) : List String :=
   match hdr with
+  | ["zero"] => "ok" :: runOps (some Ring.zero) ops    -- `var r Ring[int]`, no `Init`
   | [c] =>
     match c.toInt? with
     | none => "bad-op" :: ops.map fun _ => "bad-op"
